@@ -386,3 +386,76 @@ def r_dupskip(db, rep):
                 rep.viol("%s#skip-condition" % f.qn, f.nloc(loops[0]),
                          "%s: the duplicate-skipping loop does not run exactly while a[processed-1] == a[processed] (its siblings do; "
                          "an extra bound or a different comparison lets a duplicate through or reads a different cell)" % f.qn, f.qn)
+
+
+@rule("R-IDRANGE", 1, "the contiguous ID iterator enumerates exactly [left, right]: for the `no result` pair (0, 0) hasNext() is false at once, "
+                      "and for 1 <= left <= right it yields right-left+1 IDs starting at left (constructor, hasNext and next evaluated in "
+                      "size_t arithmetic over a grid of limits)")
+def r_idrange(db, rep):
+    rec = "IteratorDictIDContiguous"
+    ctors = [c for c in db.methods_of(rec) if c.is_ctor and len(c.params) == 2]
+    nxt = db.methods_of(rec, "next")
+    has = db.methods_of("IteratorDictID", "hasNext") or db.methods_of(rec, "hasNext")
+    if not ctors or not nxt or not has:
+        raise AnalysisBroken("IteratorDictIDContiguous: constructor / next / hasNext not found")
+    c, nxt, has = ctors[0], nxt[0], has[0]
+    for f in (c, nxt, has):
+        rep.visit(f)
+    sb = SeqBuilder(db, c, "c", nosubst=True)
+    sb.run()
+    # hasNext: return A < B over fields
+    hret = [n for n in has.live_nodes() if n["k"] == "ReturnStmt" and n.get("value") is not None]
+    if len(hret) != 1:
+        raise AnalysisBroken("IteratorDictID::hasNext: expected a single return")
+    hc = strip(hret[0]["value"])
+    if hc["k"] != "BinaryOperator" or hc["op"] not in ("<", "<=", "!="):
+        raise AnalysisBroken("IteratorDictID::hasNext: not a comparison")
+    hp = [access_path(has, hc["lhs"]), access_path(has, hc["rhs"])]
+    # next: returns ++cur / cur++ (value before or after the step)
+    nret = [n for n in nxt.live_nodes() if n["k"] == "ReturnStmt" and n.get("value") is not None]
+    step = None
+    if len(nret) == 1:
+        r = strip(nret[0]["value"])
+        if r["k"] == "UnaryOperator" and r["op"] == "++":
+            step = (access_path(nxt, r["sub"]), 0 if r.get("postfix") else 1)
+    if step is None:
+        rep.notes.append("IteratorDictIDContiguous::next is not a single `return ++x / x++`: undecided")
+        rep.inst(c.loc, "IteratorDictIDContiguous: protocol not in the recognised form")
+        return
+    cur, delta = step
+    M = 1 << 64
+
+    def fld(p, l, r):
+        v = sb.env.get(p)
+        if v is None:
+            return None
+        x = symx.evaluate(v, {("param", 0): l, ("param", 1): r})
+        return None if x is None else x % M
+
+    rep.inst(c.loc, "IteratorDictIDContiguous(left, right): %s = %s, %s = %s; hasNext: %s %s %s; next returns the value %s the step" % (
+        fmt_path(c, hp[0]), canon(sb.env.get(hp[0], ("unk", "?"))), fmt_path(c, hp[1]), canon(sb.env.get(hp[1], ("unk", "?"))),
+        fmt_path(has, hp[0]), hc["op"], fmt_path(has, hp[1]), "after" if delta else "before"))
+    cases = [(0, 0)] + [(l, r) for l in (1, 2, 5, 1000) for r in (l, l + 1, l + 7, l + 100000)]
+    for l, r in cases:
+        a, b = fld(hp[0], l, r), fld(hp[1], l, r)
+        c0 = fld(cur, l, r)
+        rep.ob()
+        if a is None or b is None or c0 is None:
+            rep.notes.append("IteratorDictIDContiguous: fields not expressible over (left, right): undecided")
+            return
+        if hc["op"] == "!=" :
+            count = (b - a) % M if cur == hp[0] else None
+        else:
+            lim = b + (1 if hc["op"] == "<=" else 0)
+            count = max(0, lim - a) if cur == hp[0] else None
+        first = (c0 + delta) % M
+        want = 0 if (l, r) == (0, 0) else r - l + 1
+        if count is None:
+            rep.notes.append("IteratorDictIDContiguous: hasNext does not test the cursor that next advances: undecided")
+            return
+        if count != want or (want and first != l):
+            rep.viol("IteratorDictIDContiguous#range", c.loc,
+                     "IteratorDictIDContiguous(%d, %d) yields %d ID(s)%s, expected %s: %s" % (
+                         l, r, count, (" starting at %d" % first) if count else "", "none" if not want else "%d starting at %d" % (want, l),
+                         "an empty prefix / no-match result produces a phantom ID" if not want else "the ID range is shifted or truncated"), c.qn)
+            return
